@@ -183,6 +183,8 @@ class KauriOracle:
         self.last_gain = None
         self.kinds_chosen = []
         self.saw_double_star = False
+        self.finder_exception = None
+        self.finder_tag = "other"
         self.expected_kernel = kernel_matrix
         self.n = len(X)
         from .. import pyx2py
@@ -230,7 +232,21 @@ class KauriOracle:
             self.violate("C08:feature_subset", {"handed": [int(v) for v in feats], "drawn": None if lc is None else [int(v) for v in lc[2]],
                                                 "expected_size": want_k})
         self.rs.last_choice = None
-        sp = real(kernel, X, leaves, Y, Z, n_clusters, K_max, n_leaves, min_leaf, feats)
+        # a state in which the double-star branch is evaluated with a feature id >= n_samples: the (known) double-star
+        # formula indexes a SAMPLE axis with the feature id there
+        sizes_c = Y @ Z.sum(1)
+        ds_oob = bool(n_clusters < K_max - 1 and len(feats) and max(int(f) for f in feats) >= X.shape[0] and
+                      any(int(Z[int(j)].sum()) != int(sizes_c[int(Y[:, int(j)].argmax())]) and int(Z[int(j)].sum()) >= 2 * int(min_leaf)
+                          for j in leaves))
+        self.finder_tag = "double_star_feature_id_ge_n_samples" if ds_oob else "other"
+        try:
+            sp = real(kernel, X, leaves, Y, Z, n_clusters, K_max, n_leaves, min_leaf, feats)
+        except (SimFault, SimBudget):
+            raise
+        except Exception as e:
+            self.finder_exception = type(e).__name__
+            self.violate(f"C08:raised:{type(e).__name__}@find_best_split:{self.finder_tag}", {"msg": str(e)[:200], "event": self.events})
+            raise
         world.log.emit("SPLIT_SEARCH", ev=self.events, n_leaves=int(n_leaves), n_clusters=int(n_clusters),
                        leaves=[int(v) for v in leaves], feats=[int(v) for v in feats], gain=fhex(sp.gain),
                        leaf=int(sp.leaf), f=int(sp.feature), t=fhex(sp.threshold), lt=int(sp.left_target), rt=int(sp.right_target))
@@ -253,7 +269,7 @@ class KauriOracle:
             except Exception as e:
                 sp2 = None
                 res.probe("pyx_source_raised:" + type(e).__name__)
-                self.violate("C08:raised:" + type(e).__name__ + "@_utils.pyx:find_best_split", {"msg": str(e)[:200], "event": self.events})
+                self.violate("C08:raised:" + type(e).__name__ + "@_utils.pyx:find_best_split:" + self.finder_tag, {"msg": str(e)[:200], "event": self.events})
             if sp2 is not None:
                 res.probe("pyx_source_events")
                 a = (sp.gain, sp.leaf, sp.left_target, sp.right_target, sp.feature, sp.threshold)
@@ -506,9 +522,10 @@ def execute_for(prop, record):
                         else:
                             res.violate(f"C09:raised:ValueError@{exc_site(e)}", {"msg": str(e)[:200], "op": kind})
                     except Exception as e:
-                        if is_harness_frame(e):
+                        if is_harness_frame(e) and oracle.finder_exception is None:
                             raise
-                        res.violate(f"C09:raised:{type(e).__name__}@{exc_site(e)}", {"msg": str(e)[:200], "op": kind})
+                        tag = (":" + oracle.finder_tag) if oracle.finder_exception is not None else ""
+                        res.violate(f"C09:raised:{type(e).__name__}@fit{tag}", {"msg": str(e)[:200], "op": kind})
                     if fitted:
                         final_checks(res, oracle, model, c2, X, yarg, kernel_matrix, np.random.RandomState(cfg["data_seed"] ^ 0x51))
                     world.split_hook = None
